@@ -1,5 +1,5 @@
 (* Proofs about shooting the ammo a provider delivers (Model/ShootAmmo.v, property C10). *)
-From Coq Require Import List NArith ZArith Bool Lia.
+From Coq Require Import List NArith ZArith Bool Lia Permutation.
 From PV Require Import Lib.Table Lib.AmmoBytes Lib.AmmoLines Model.Sample Model.Shoot Model.AmmoCommon Model.AmmoUri Model.AmmoUripost
   Model.AmmoRaw Model.AmmoJson Model.ShootAmmo Proofs.SampleProofs Proofs.ShootProofs
   Proofs.AmmoUriProofs Proofs.AmmoUripostProofs Proofs.AmmoRawProofs Proofs.AmmoJsonProofs.
@@ -35,6 +35,33 @@ Section Generic.
   Lemma ammo_spec_ids_nodup es i id : NoDup (map sm_id (ammo_spec cfg tag_of path_of xof i id es)).
   Proof. rewrite ammo_spec_ids. apply ids_from_nodup. Qed.
 End Generic.
+
+(* Concurrently shooting instances: which instance acquires which ammo, and in which order the
+   samples reach the aggregator, is up to the scheduler - but the tag and the codes of a sample
+   depend on ITS ammo only (not on the position, not on the id), so the reported samples are,
+   up to order and ids, those of the sequential run. *)
+Definition sm_fields (s : sample) : bytes * N * N := (sm_tags s, sm_proto s, sm_net s).
+
+Section Concurrent.
+  Context {E : Type}.
+  Variable cfg : autotag_cfg.
+  Variable tag_of path_of : E -> bytes.
+  Variable x : E -> exchange.
+
+  Lemma ammo_spec_fields_local es : forall i id,
+    map sm_fields (ammo_spec cfg tag_of path_of (fun _ => x) i id es) =
+    map (fun e => sm_fields (base_spec cfg false 0 (tag_of e) (path_of e) (x e))) es.
+  Proof.
+    induction es as [|e r IH]; intros i id; cbn [ammo_spec map]; [reflexivity|].
+    rewrite IH. f_equal.
+  Qed.
+
+  Lemma ammo_spec_any_order es es' i id i' id' :
+    Permutation es es' ->
+    Permutation (map sm_fields (ammo_spec cfg tag_of path_of (fun _ => x) i id es))
+                (map sm_fields (ammo_spec cfg tag_of path_of (fun _ => x) i' id' es')).
+  Proof. intros H. rewrite !ammo_spec_fields_local. apply Permutation_map. exact H. Qed.
+End Concurrent.
 
 (* the tags of the entries a file means are the tags written on its request lines, in order *)
 Definition uitem_tags (items : list uitem) : list bytes :=
